@@ -3,6 +3,7 @@ package props
 import (
 	"context"
 	"fmt"
+	"runtime"
 	"sync"
 	"sync/atomic"
 	"time"
@@ -23,7 +24,7 @@ func init() {
 			"s1burst":  {N: func(t string) int { return tierN(t, 120, 20000) }, Case: c16Burst},
 			"s2window": {N: func(t string) int { return tierN(t, 40, 6000) }, Case: c16Window},
 			"s3stop":   {N: func(t string) int { return tierN(t, 80, 20000) }, Case: c16Stop},
-			"s4order":  {N: func(t string) int { return tierN(t, 99, 9000) }, Case: c16Order, Batch: 4},
+			"s4order":  {N: func(t string) int { return tierN(t, 100, 9000) }, Case: c16Order, Batch: 4},
 		},
 	})
 }
@@ -404,7 +405,7 @@ func c16Order(tier string, seed int64, idx int, scratch string) rt.CaseResult {
 	var c rt.CaseResult
 	rt.SetWatchdogLimit(30 * time.Second)
 	rng := seqrun.Rng(seed, "C16o", idx)
-	patterns := []string{"send-before-run", "stop-stop-concurrent", "run-stop-run", "stop-before-run", "send-during-stop", "run-run-concurrent", "random", "stop-racing-runs", "restart-with-deferred"}
+	patterns := []string{"send-before-run", "stop-stop-concurrent", "run-stop-run", "stop-before-run", "send-during-stop", "run-run-concurrent", "random", "stop-racing-runs", "restart-with-deferred", "first-deferral-racing-stop"}
 	pat := patterns[idx%len(patterns)]
 	e := &c16Env{pool: verif.NewPool(verif.PoolOptions{NumWorkers: 1 + rng.Intn(2), SendDuration: time.Microsecond}), t0: time.Now()}
 	fmt.Fprintf(stderrW, "C16 pattern %s\n", pat)
@@ -454,6 +455,42 @@ func c16Order(tier string, seed int64, idx int, scratch string) rt.CaseResult {
 			}
 			fs = append(fs, func() { time.Sleep(time.Duration(rng.Intn(60)) * time.Microsecond); e.pool.Stop() })
 			par(fs...)
+			e.pool.Stop()
+		}
+	case "first-deferral-racing-stop":
+		// the one Send that has to be deferred (and so starts the flusher) races with Stop; the
+		// pool is then run again: a flusher that outlived Stop would hit the closed channel or
+		// feed a job of the old life to the new one
+		e.workers = 1
+		e.pool = verif.NewPool(verif.PoolOptions{NumWorkers: 1, SendDuration: 1})
+		var spin atomic.Int64
+		for round := 0; round < 4000; round++ {
+			if round%64 == 0 {
+				rt.Beat()
+			}
+			e.pool.Run(bg)
+			blocker := e.newJob(true)
+			e.send(blocker)
+			for blocker.started.Load() == 0 {
+				runtime.Gosched()
+			}
+			send() // the channel of a one-worker pool holds two
+			send()
+			returned := make(chan struct{})
+			go func() {
+				send() // has to be deferred: starts the flusher
+				close(returned)
+				for i := 0; i < 2000; i++ { // stays on its processor, as a caller that goes on working does
+					spin.Add(1)
+				}
+			}()
+			for i := 0; i < (round+idx)%64; i++ { // phase between the Send and the Stop
+				spin.Add(1)
+			}
+			e.pool.Stop()
+			<-returned
+			e.pool.Run(bg)
+			time.Sleep(20 * time.Microsecond)
 			e.pool.Stop()
 		}
 	case "stop-racing-runs":
